@@ -1074,6 +1074,7 @@ def semantic_validators(ctx: Ctx) -> Dict[str, Dict[str, object]]:
     on construction (validators, __attrs_post_init__, methods they call on self), the error classes and the fields read"""
     def build():
         out: Dict[str, Dict[str, object]] = {}
+        root = ctx.model.ast_root()
         for c in ctx.model.concrete_ast_classes():
             funcs: List[FunctionInfo] = []
             for k in c.mro():
@@ -1089,6 +1090,21 @@ def semantic_validators(ctx: Ctx) -> Dict[str, Dict[str, object]]:
                     if isinstance(n, ast.Call) and isinstance(n.func, ast.Attribute) and isinstance(n.func.value, ast.Name) and n.func.value.id == 'self':
                         m = c.resolve(n.func.attr)
                         if m is not None and m.key not in seen:
+                            seen.add(m.key)
+                            funcs.append(m)
+                            todo.append(m)
+                    elif isinstance(n, ast.Call) and isinstance(n.func, ast.Attribute):
+                        # a method of a helper (non-AST) class of the same module, e.g. an environment object the checks are moved to
+                        for hc in f.module.classes.values():
+                            if root not in hc.mro() and n.func.attr in hc.methods and not hc.is_enum:
+                                m = hc.methods[n.func.attr]
+                                if m.key not in seen:
+                                    seen.add(m.key)
+                                    funcs.append(m)
+                                    todo.append(m)
+                    elif isinstance(n, ast.Call) and isinstance(n.func, ast.Name) and n.func.id in f.module.functions:
+                        m = f.module.functions[n.func.id]
+                        if m.key not in seen and m.name.startswith('_'):
                             seen.add(m.key)
                             funcs.append(m)
                             todo.append(m)
